@@ -313,13 +313,39 @@ class Reader:
         return allkw.get(w, "assignment-or-other")
 
     def walk_assign(self, key, v, level):
+        """One assignment statement.  When the parameter name itself is not a writable name (empty, keyword,
+        white space / '=' / reserved characters, not an ODL identifier) every derailment of THIS statement is a
+        consequence of that defect and is reported under the name's key only; `structure:parameter-name-not-written`
+        is reserved for a valid name that the encoder failed to write."""
+        odl = self.D["odl"]
+        written = key.upper() if odl else key
+        name_bad = None
+        if written == "":
+            name_bad = ("parameter-name:empty", "a statement with an empty parameter name was written: "
+                                                f"{self.t[self.p:self.p + 30]!r}")
+        elif written.upper() in KEYWORDS:
+            name_bad = ("parameter-name:reserved-keyword", f"parameter name {written!r} is a reserved keyword")
+        elif odl:
+            if not ODL_NAME_RE.match(written):
+                name_bad = ("parameter-name:not-an-identifier", f"parameter name {written!r} is not an ODL identifier")
+        elif not pvl_name_ok(written, isis=self.enc == "ISISEncoder"):
+            name_bad = ("parameter-name:not-a-pvl-name",
+                        f"parameter name {written!r} contains white space / '=' / reserved characters")
+        if written == "":
+            raise Desync(*name_bad)
+        if name_bad is None:
+            return self._walk_assign(key, v, level, written)
+        try:
+            r = self._walk_assign(key, v, level, written)
+        except Desync as e:
+            raise Desync(name_bad[0], name_bad[1] + f" (and the statement derails: {e.what[:120]})")
+        self.bad(*name_bad)
+        return r
+
+    def _walk_assign(self, key, v, level, written):
         t = self.t
         what = f"assignment {key!r}"
         odl = self.D["odl"]
-        written = key.upper() if odl else key
-        if written == "":
-            raise Desync("parameter-name:empty", "a statement with an empty parameter name was written: "
-                                                 f"{t[self.p:self.p + 30]!r}")
         ls, q = self.stmt_start(level, what)
         if odl and not t.startswith(written, q) and t[q:q + len(written)].upper() == written:
             self.bad("parameter-name:not-upper-case",
@@ -333,20 +359,10 @@ class Reader:
             raise Desync(sub, f"expected the statement of parameter {written!r} at offset {q}, found {t[q:q + 30]!r}")
         self.indent_check(level, ls, q, what)
         if odl:
-            if not ODL_NAME_RE.match(written):
-                self.bad("parameter-name:not-an-identifier", f"parameter name {written!r} is not an ODL identifier")
             if len(written) > 30:
                 self.bad("parameter-name:over-30", f"parameter name {written!r} has {len(written)} characters")
             if written != written.upper():
                 self.bad("parameter-name:not-upper-case", f"parameter name {written!r} is not upper case")
-            if written.upper() in KEYWORDS:
-                self.bad("parameter-name:reserved-keyword", f"parameter name {written!r} is a reserved keyword")
-        else:
-            if written.upper() in KEYWORDS:
-                self.bad("parameter-name:reserved-keyword", f"parameter name {written!r} is a reserved keyword")
-            elif not pvl_name_ok(written, isis=self.enc == "ISISEncoder"):
-                self.bad("parameter-name:not-a-pvl-name",
-                         f"parameter name {written!r} contains white space / reserved characters or is a keyword")
         p = q + len(written)
         e = p
         while e < self.n and t[e] == " ":
